@@ -162,3 +162,196 @@ pub fn note_others(p: &PipeResult, mine: &[Kind], out: &mut Outcome) {
 pub fn ret_of(d: &Digest, th: u32, ix: u32) -> Option<Pos> {
     d.ops.get(&(th, ix)).and_then(|o| o.ret)
 }
+
+// ------------------------------------------------------------------ prediction (generator side)
+
+pub struct Predicted {
+    pub vetoed: bool,
+    pub surviving: Vec<EffSpec>,
+    /// Some(true/false) when specified, None when the property leaves it open
+    pub notifies: Option<bool>,
+}
+
+/// What the documented pipeline does with action `a` on a store whose components are all
+/// build-time ones. Used by generators to know how many follow-ups / notifications to wait for.
+pub fn predict(scn: &Scenario, store: StoreIx, a: ActId) -> Predicted {
+    let sp = &scn.stores[store];
+    let sc = &scn.actions[a as usize];
+    let mut vetoed = false;
+    for m in &sp.middlewares {
+        match sc.verdict(*m, Hook::BeforeReduce) {
+            Verdict::Done => vetoed = true,
+            Verdict::Break => break,
+            _ => {}
+        }
+    }
+    let mut effs: Vec<EffSpec> = vec![];
+    let mut keeps = vec![];
+    if !vetoed {
+        for r in &sp.reducers {
+            keeps.push(sc.keeps(*r));
+            if let Some(e) = sc.effect_of(*r) {
+                effs.push(e.clone());
+            }
+        }
+    }
+    for m in &sp.middlewares {
+        let rm = sc.removed_by(*m);
+        effs.retain(|e| !rm.contains(&e.id));
+        if sc.verdict(*m, Hook::BeforeEffect) == Verdict::Break {
+            break;
+        }
+    }
+    let mut notifies = if vetoed || keeps.is_empty() {
+        None
+    } else if keeps.iter().all(|k| !*k) {
+        Some(true)
+    } else if keeps.iter().all(|k| *k) {
+        Some(false)
+    } else {
+        None
+    };
+    if notifies != Some(false) {
+        for m in &sp.middlewares {
+            match sc.verdict(*m, Hook::BeforeDispatch) {
+                Verdict::Done => notifies = Some(false),
+                Verdict::Break => break,
+                _ => {}
+            }
+        }
+    }
+    Predicted { vetoed, surviving: effs, notifies }
+}
+
+// ------------------------------------------------------------------ effects (O-EFFECT)
+
+pub struct EffObs {
+    pub starts: std::collections::HashMap<EffId, Vec<(Pos, Tid)>>,
+    pub ends: std::collections::HashMap<EffId, Vec<Pos>>,
+}
+
+pub fn effect_obs(d: &Digest) -> EffObs {
+    let mut o = EffObs { starts: Default::default(), ends: Default::default() };
+    for (p, r) in d.h.recs.iter().enumerate() {
+        match &r.ev {
+            Ev::Eff { eff } => o.starts.entry(*eff).or_default().push((p, r.tid)),
+            Ev::EffEnd { eff } => o.ends.entry(*eff).or_default().push(p),
+            _ => {}
+        }
+    }
+    o
+}
+
+pub fn eff_spec(scn: &Scenario, id: EffId) -> Option<&EffSpec> {
+    for a in &scn.actions {
+        for (_, e) in &a.effects {
+            if e.id == id {
+                return Some(e);
+            }
+        }
+    }
+    None
+}
+
+/// O-EFFECT over the effects returned by reducers. `expect_all`: every surviving effect must have
+/// run by the end of the log (sound when the scenario made sure they were awaited or when stop()
+/// joins the workers); follow-up presence for Effect::Action is required only when
+/// `followups_awaited`.
+pub fn check_effects(d: &Digest, p: &PipeResult, followups_awaited: bool, viol: &mut Vec<String>, lost_after_stop: &mut Vec<(EffId, ActId)>) {
+    let obs = effect_obs(d);
+    for (s, runs) in p.runs.iter().enumerate() {
+        let sd = &d.stores[s];
+        for (ri, r) in runs.iter().enumerate() {
+            for e in &r.effects_returned {
+                let Some(spec) = eff_spec(d.scn, *e) else { continue };
+                let survived = r.effects_surviving.contains(e);
+                let starts = obs.starts.get(e).cloned().unwrap_or_default();
+                match &spec.kind {
+                    EffKind::Action(f) => {
+                        let fruns: Vec<usize> = runs.iter().enumerate().filter(|(_, x)| x.act == *f).map(|(i, _)| i).collect();
+                        if !survived {
+                            if !fruns.is_empty() {
+                                viol.push(format!("Effect::Action {} of action {} was removed in before_effect but its action {} was reduced", e, r.act, f));
+                            }
+                            continue;
+                        }
+                        if fruns.len() > 1 {
+                            viol.push(format!("follow-up action {} of Effect::Action {} was reduced {} times", f, e, fruns.len()));
+                        }
+                        if let Some(fi) = fruns.first() {
+                            if *fi <= ri {
+                                viol.push(format!("follow-up action {} was reduced before the action {} that produced it", f, r.act));
+                            }
+                        } else if followups_awaited {
+                            viol.push(format!("Effect::Action {} of action {}: follow-up action {} was never reduced although the store was still open", e, r.act, f));
+                        }
+                    }
+                    _ => {
+                        if !survived {
+                            if !starts.is_empty() {
+                                viol.push(format!("effect {} of action {} was removed by a middleware in before_effect but was executed", e, r.act));
+                            }
+                            continue;
+                        }
+                        if starts.len() > 1 {
+                            viol.push(format!("effect {} of action {} was executed {} times", e, r.act, starts.len()));
+                        }
+                        if starts.is_empty() {
+                            lost_after_stop.push((*e, r.act));
+                        }
+                        for (pos, tid) in &starts {
+                            if Some(*tid) == sd.red_tid {
+                                viol.push(format!("effect {} of action {} ran in the reducer context (thread {})", e, r.act, tid));
+                            }
+                            if *pos < r.first {
+                                viol.push(format!("effect {} ran before the action {} that produced it was reduced", e, r.act));
+                            }
+                        }
+                        if let EffKind::Thunk(list) = &spec.kind {
+                            // a thunk's dispatcher belongs to the store that produced it: its
+                            // follow-ups (scripted for store s) must show up in store s's pipeline
+                            for f in list {
+                                let accepted = d.disps.iter().any(|x| x.act == *f && x.ok == Some(true));
+                                let n = runs.iter().filter(|x| x.act == *f).count();
+                                if n > 1 {
+                                    viol.push(format!("follow-up {} of thunk {} reduced {} times", f, e, n));
+                                }
+                                if accepted && n == 0 && d.scn.stores[s].policy == Pol::Block {
+                                    viol.push(format!("follow-up {} dispatched by thunk {} was accepted (Ok) but never reduced by the store that produced the thunk", f, e));
+                                }
+                                for (os, oruns) in p.runs.iter().enumerate() {
+                                    if os != s && oruns.iter().any(|x| x.act == *f) {
+                                        viol.push(format!("thunk {} produced by store {} dispatched into store {}", e, s, os));
+                                    }
+                                }
+                            }
+                        }
+                    }
+                }
+            }
+        }
+    }
+    // nothing runs after stop() returned
+    for (s, sd) in d.stores.iter().enumerate() {
+        if let Some(sr) = sd.first_stop_ret {
+            for (e, v) in obs.starts.iter() {
+                let Some(spec) = eff_spec(d.scn, *e) else { continue };
+                let _ = spec;
+                let store_of = d.scn.actions.iter().find(|a| a.effects.iter().any(|(_, x)| x.id == *e)).map(|a| a.store);
+                if store_of != Some(s) {
+                    continue;
+                }
+                for (pos, _) in v {
+                    if *pos > sr {
+                        viol.push(format!("effect {} started after stop() of store {} had returned", e, s));
+                    }
+                }
+                for pos in obs.ends.get(e).cloned().unwrap_or_default() {
+                    if pos > sr {
+                        viol.push(format!("effect {} was still running when stop() of store {} returned", e, s));
+                    }
+                }
+            }
+        }
+    }
+}
